@@ -214,6 +214,22 @@ impl TransientStream {
         drop(self.write);
         TransientReadHalf(self.read)
     }
+    /// Splits the stream into halves that can be driven by two tasks (a reader that always drains, a writer).
+    pub fn split(self) -> (TransientReadHalf, TransientWriteHalf) {
+        (TransientReadHalf(self.read), TransientWriteHalf(self.write))
+    }
+}
+
+/// Write half of a transient stream; dropping it closes the write direction.
+pub struct TransientWriteHalf(mux::WriteStream);
+
+impl TransientWriteHalf {
+    pub async fn write_all(&mut self, ctx: &ctx::Ctx, data: &[u8]) -> anyhow::Result<()> {
+        self.0.write_all(ctx, data).await
+    }
+    pub async fn flush(&mut self, ctx: &ctx::Ctx) -> anyhow::Result<()> {
+        self.0.flush(ctx).await
+    }
 }
 
 pub struct TransientReadHalf(mux::ReadStream);
